@@ -618,11 +618,14 @@ func (c *client) register(rid uint32) (ch chan *protocol.Packet, unregister func
 	c.recvsMu.Unlock()
 
 	unregister = func() {
+		// whoever takes the waiter out of the table closes it: reconnect()
+		// swaps the table and closes every waiter it held
 		c.recvsMu.Lock()
-		delete(c.recvs, rid)
+		if cur, ok := c.recvs[rid]; ok && cur == ch {
+			delete(c.recvs, rid)
+			close(ch)
+		}
 		c.recvsMu.Unlock()
-
-		close(ch)
 	}
 
 	return
@@ -631,6 +634,10 @@ func (c *client) register(rid uint32) (ch chan *protocol.Packet, unregister func
 func (c *client) recv(ctx context.Context, rid uint32, ch chan *protocol.Packet) (res *protocol.Packet, err error) {
 	select {
 	case res = <-ch:
+		if res == nil {
+			// waiter closed by reconnect(): the connection was recycled
+			err = errors.Errorf("connection lost while waiting for %d response", rid)
+		}
 	case <-ctx.Done():
 		err = errors.Errorf("wait for %d response timeout", rid)
 	}
